@@ -94,7 +94,9 @@ for i in rep['Instances']:
 found = re.findall(r'\("([^"]*)",\s*"([^"]*)",\s*(\d+)\)', diag)
 if not found:
     print("OBLIGATION-FAIL violations facts = [] no longer holds (no diagnostic available): " + diag[-300:].replace('\n', ' '))
-for inst, name, k in found:
+if len(found) > 6:
+    print(f"lockfacts: {len(found)} paths break the discipline; the first 6 are reported")
+for inst, name, k in found[:6]:
     ps = text.get((inst, name)) or []
     k = int(k)
     desc = ps[0] if len(ps) == 1 else (ps[k] if k < len(ps) else '?')
